@@ -17,7 +17,7 @@ from jsonargparse import ActionConfigFile, ArgumentParser
 
 from vf.util import call, environ, same, short, strip_prov
 
-SUBNAMES = ["fit", "test", "run", "a"]
+SUBNAMES = ["fit", "test", "run", "a", "get", "items", "pop"]  # the last three are also Namespace method names
 FAIL = object()
 
 
